@@ -52,7 +52,7 @@ PROPS = {
                    'only (labelled bounded); Gate::eval_filtered and Gate::eval_filtered_circuit (filter plumbing: selector column, `num_selectors > 1`, removal of both constant prefixes, '
                    'accumulation filter*c + acc) are proved against ONE uninterpreted filter function (units gate_constraints, filtered_circuit), and both whole-circuit combiners, evaluate_gate_constraints and '
                    'evaluate_gate_constraints_circuit, return in slot j the sum over EVERY gate type of its filtered j-th constraint, each gate with its own selector column, group and the same prefix sizes '
-                   '(num_selectors, num_lookup_selectors) (units gate_constraints, gate_constraints_circuit).',
+                   '(num_selectors, num_lookup_selectors) (units gate_constraints, gate_constraints_circuit); lemma_circuit_sum_equals_native: if every gate\'s in-circuit evaluator denotes its native evaluator, the two whole-circuit combiners denote the same value in every slot.',
         level_note='Trusted: Verus+Z3; abstract ring for scalar/extension/packed fields (T6); CircuitBuilder arithmetic contracts (T10d). Other gates '
                    '(BaseSum, Exponentiation, RandomAccess, Reducing*, MulExtension, ArithmeticExtension, Poseidon*, CosetInterpolation, Lookup*) and '
                    'compute_filter / compute_filter_circuit (iterator products): bounded harness only (c07_gates: 23 gate instances incl. odd bases 3/5/7 x {standard, 37-routed-wire} configuration: extension vs '
